@@ -315,7 +315,7 @@ impl<'a> CompilerState<'a> {
         let subscript = match p.next() {
             Some(pair) => {
                 let start = pair.as_span().start();
-                let expr = self.parse_expr_ex(pair.into_inner())?;
+                let expr = self.parse_expr_ex(pair.into_inner(), self.literal_counter)?;
                 if !expr.1.is_empty() {
                     // The literals collected here would never be created
                     return Err(self.syntax_error("String literal not allowed in a subscript", start));
@@ -373,9 +373,9 @@ impl<'a> CompilerState<'a> {
     }
 
     fn parse_expr(&mut self, pairs: Pairs<'a, Rule>) -> Result<Expr, Error> {
-        let res = self.parse_expr_ex(pairs)?;
+        let res = self.parse_expr_ex(pairs, self.literal_counter)?;
         #[cfg(feature = "verif_hooks")]
-        crate::verif_hooks::literal_order(res.1.keys().cloned().collect());
+        crate::verif_hooks::literal_order(res.1.iter().map(|k| k.0.clone()).collect());
 
         // Create collected literal variables in memory
         self.literal_counter += res.1.len();
@@ -409,12 +409,15 @@ impl<'a> CompilerState<'a> {
         Ok(res.0)
     }
 
+    // first_literal: number of the first string literal met in this (sub)expression, so that
+    // literals of separate sub-expressions get distinct names
     fn parse_expr_ex(
         &self,
         pairs: Pairs<'a, Rule>,
-    ) -> Result<(Expr, HashMap<String, String>), Error> {
-        let literal_counter = Rc::new(Mutex::new(self.literal_counter));
-        let literal_strings = Rc::new(Mutex::new(HashMap::<String, String>::new()));
+        first_literal: usize,
+    ) -> Result<(Expr, Vec<(String, String)>), Error> {
+        let literal_counter = Rc::new(Mutex::new(first_literal));
+        let literal_strings = Rc::new(Mutex::new(Vec::<(String, String)>::new()));
         if pairs.len() == 0 {
             let lit_strs = Rc::into_inner(literal_strings)
                 .unwrap()
@@ -430,12 +433,12 @@ impl<'a> CompilerState<'a> {
                         self.parse_int(primary.into_inner().next().unwrap())?,
                     )),
                     Rule::expr => {
-                        let res = self.parse_expr_ex(primary.into_inner())?;
+                        let mut l = literal_counter.lock().unwrap();
+                        let res = self.parse_expr_ex(primary.into_inner(), *l)?;
                         let mut lit_strs = literal_strings.lock().unwrap();
                         for k in &res.1 {
-                            lit_strs.insert(k.0.clone(), k.1.clone());
+                            lit_strs.push((k.0.clone(), k.1.clone()));
                         }
-                        let mut l = literal_counter.lock().unwrap();
                         *l += res.1.len();
                         Ok(res.0)
                     }
@@ -450,7 +453,7 @@ impl<'a> CompilerState<'a> {
                         let name = format!("cctmp{}", l);
                         *l += 1;
                         let mut lit_strs = literal_strings.lock().unwrap();
-                        lit_strs.insert(name.clone(), v);
+                        lit_strs.push((name.clone(), v));
                         Ok(Expr::TmpId(name))
                     }
                     Rule::primary_var_type => Ok(Expr::Type(primary.as_str().into())),
@@ -513,12 +516,12 @@ impl<'a> CompilerState<'a> {
                 Rule::pp => Ok(Expr::PlusPlus(Box::new(lhs?), true)),
                 Rule::call => {
                     let params = if let Some(x) = op.into_inner().next() {
-                        let res = self.parse_expr_ex(x.into_inner())?;
+                        let mut l = literal_counter.lock().unwrap();
+                        let res = self.parse_expr_ex(x.into_inner(), *l)?;
                         let mut lit_strs = literal_strings.lock().unwrap();
                         for k in &res.1 {
-                            lit_strs.insert(k.0.clone(), k.1.clone());
+                            lit_strs.push((k.0.clone(), k.1.clone()));
                         }
-                        let mut l = literal_counter.lock().unwrap();
                         *l += res.1.len();
                         res.0
                     } else {
@@ -542,7 +545,7 @@ impl<'a> CompilerState<'a> {
     fn parse_expr_init_value(&mut self, pairs: Pairs<'a, Rule>) -> Result<Expr, Error> {
         let res = self.parse_expr_init_value_ex(pairs)?;
         #[cfg(feature = "verif_hooks")]
-        crate::verif_hooks::literal_order(res.1.keys().cloned().collect());
+        crate::verif_hooks::literal_order(res.1.iter().map(|k| k.0.clone()).collect());
 
         // Create collected literal variables in memory
         self.literal_counter += res.1.len();
@@ -579,9 +582,9 @@ impl<'a> CompilerState<'a> {
     fn parse_expr_init_value_ex(
         &self,
         pairs: Pairs<'a, Rule>,
-    ) -> Result<(Expr, HashMap<String, String>), Error> {
+    ) -> Result<(Expr, Vec<(String, String)>), Error> {
         let literal_counter = Rc::new(Mutex::new(self.literal_counter));
-        let literal_strings = Rc::new(Mutex::new(HashMap::<String, String>::new()));
+        let literal_strings = Rc::new(Mutex::new(Vec::<(String, String)>::new()));
         let res = self
             .pratt_init_value
             .map_primary(|primary| -> Result<Expr, Error> {
@@ -590,12 +593,12 @@ impl<'a> CompilerState<'a> {
                         self.parse_int(primary.into_inner().next().unwrap())?,
                     )),
                     Rule::expr => {
-                        let res = self.parse_expr_ex(primary.into_inner())?;
+                        let mut l = literal_counter.lock().unwrap();
+                        let res = self.parse_expr_ex(primary.into_inner(), *l)?;
                         let mut lit_strs = literal_strings.lock().unwrap();
                         for k in &res.1 {
-                            lit_strs.insert(k.0.clone(), k.1.clone());
+                            lit_strs.push((k.0.clone(), k.1.clone()));
                         }
-                        let mut l = literal_counter.lock().unwrap();
                         *l += res.1.len();
                         Ok(res.0)
                     }
@@ -610,7 +613,7 @@ impl<'a> CompilerState<'a> {
                         let name = format!("cctmp{}", l);
                         *l += 1;
                         let mut lit_strs = literal_strings.lock().unwrap();
-                        lit_strs.insert(name.clone(), v);
+                        lit_strs.push((name.clone(), v));
                         Ok(Expr::TmpId(name))
                     }
                     Rule::primary_var_type => Ok(Expr::Type(primary.as_str().into())),
@@ -672,12 +675,12 @@ impl<'a> CompilerState<'a> {
                 Rule::pp => Ok(Expr::PlusPlus(Box::new(lhs?), true)),
                 Rule::call => {
                     let params = if let Some(x) = op.into_inner().next() {
-                        let res = self.parse_expr_ex(x.into_inner())?;
+                        let mut l = literal_counter.lock().unwrap();
+                        let res = self.parse_expr_ex(x.into_inner(), *l)?;
                         let mut lit_strs = literal_strings.lock().unwrap();
                         for k in &res.1 {
-                            lit_strs.insert(k.0.clone(), k.1.clone());
+                            lit_strs.push((k.0.clone(), k.1.clone()));
                         }
-                        let mut l = literal_counter.lock().unwrap();
                         *l += res.1.len();
                         res.0
                     } else {
